@@ -469,6 +469,38 @@ func runC01(r *fw.Run) {
 			r.Count("rounds_with_a_stalled_reader", 1)
 			r.Case(fw.Hash("stall", fmt.Sprint(ci, k)), true)
 		}
+		// replies (and the calls that script them) of every length in a window around powers of two: a frame is
+		// complete after its NUL whatever its size, and the next reply is a frame of its own
+		{
+			centres := []int{4096, 8192, 32768, 65536, 131072}
+			if r.Thorough {
+				centres = append(centres, 512, 1024, 2048, 12288, 16384, 3*65536, 262144, 524288, 1<<20, 2<<20)
+			}
+			for _, centre := range centres {
+				if g.tainted || r.ViolationCount() > 12 {
+					break
+				}
+				cc := &c01Case{Transport: cf.tr, UseListen: cf.listen, Ifaces: c01Ifaces}
+				cs := &ConnScript{Seg: 0, What: fmt.Sprintf("reply lengths around %d", centre)}
+				for n := centre - 48; n <= centre; n++ {
+					tagN++
+					raw := json.RawMessage(`{"x":"` + strings.Repeat("x", n-8) + `"}`)
+					sc := &CallScript{ID: fmt.Sprintf("z%d", tagN), Steps: []Step{{Op: "reply", Raw: raw}}}
+					fl := ""
+					if n%2 == 1 {
+						fl = "m"
+						sc.Steps = []Step{{Op: "reply", Cont: true, Raw: raw}, {Op: "reply", Raw: raw}}
+					}
+					cs.Calls = append(cs.Calls, GenCall{Method: "org.example.script.M", Flags: fl, Script: sc})
+				}
+				cc.Conns = append(cc.Conns, cs)
+				r.Journal(0, map[string]interface{}{"what": "reply lengths", "centre": centre, "transport": cf.tr})
+				c01Round(r, g, "C01", cc, true)
+				r.Done(0)
+				r.Count("exact_length_replies", int64(len(cs.Calls)*3/2))
+				r.Case(fw.Hash("sizes", fmt.Sprint(ci, centre)), true)
+			}
+		}
 		if err, ok := g.Stop(); !ok {
 			r.Violation("C01 no-return-after-shutdown", fmt.Sprintf("config %d: serving call did not return within 30 s after Shutdown with no client connected", ci), cfgs[ci].tr)
 		} else if err != nil {
@@ -518,7 +550,7 @@ func replayRound(r *fw.Run, raw json.RawMessage, prop string) {
 func init() {
 	fw.Register(&fw.Engine{
 		ID: "C01", Level: "exploration",
-		Rule: "a case = one connection script: 1..6 calls (targets: 3 registered scripted interfaces, unknown interfaces, methods without interface part, GetInfo, GetInterfaceDescription good/unknown/missing/ill-typed, unknown org.varlink.service methods; flags: every subset of more/oneway/upgrade plus explicit false/null spellings), each scripted call carrying its own handler script (0..5 steps of continues-reply / final reply / error reply with valid, dot-less and reserved names / the four built-in error helpers / yields, then a final reply, an error reply, nothing, or a handler failure), sent under one of 5 segmentations (one write, one byte per write, random cuts with pauses, one write per frame, cuts around 4096/8192). Rounds run 1..N such connections concurrently against one real Service on a socket (N<=8 quick, <=32 thorough). Oracle: the sequential model of DESIGN A.2 per connection - reply frames equal one for one and in order (number-exact JSON), EOF where predicted, handler log (target, flags, result of every reply attempt, end) equal, at most one handler per connection at any time, no handler event for an unknown peer, active-connection counter back to 0. non-trivial = >= 2 calls, or a flag, or > 1 handler step; distinct by hash of the call list and segmentation. Also: now and then a connection with up to 700 calls; frames without a method member; rounds in which 150 (thorough 400) connections are all established before the first byte is sent, two thirds of them idle and held open; rounds in which one client stops reading in the middle of a 3 MiB reply (its handler sits in a blocked write) while the others, started once that handler has been entered, must be served as usual. A connection left without bytes and without EOF for 40 s while the barrier probe made after the round is answered is a violation (stall).",
+		Rule: "a case = one connection script: 1..6 calls (targets: 3 registered scripted interfaces, unknown interfaces, methods without interface part, GetInfo, GetInterfaceDescription good/unknown/missing/ill-typed, unknown org.varlink.service methods; flags: every subset of more/oneway/upgrade plus explicit false/null spellings), each scripted call carrying its own handler script (0..5 steps of continues-reply / final reply / error reply with valid, dot-less and reserved names / the four built-in error helpers / yields, then a final reply, an error reply, nothing, or a handler failure), sent under one of 5 segmentations (one write, one byte per write, random cuts with pauses, one write per frame, cuts around 4096/8192). Rounds run 1..N such connections concurrently against one real Service on a socket (N<=8 quick, <=32 thorough). Oracle: the sequential model of DESIGN A.2 per connection - reply frames equal one for one and in order (number-exact JSON), EOF where predicted, handler log (target, flags, result of every reply attempt, end) equal, at most one handler per connection at any time, no handler event for an unknown peer, active-connection counter back to 0. non-trivial = >= 2 calls, or a flag, or > 1 handler step; distinct by hash of the call list and segmentation. Also: now and then a connection with up to 700 calls; frames without a method member; rounds in which 150 (thorough 400) connections are all established before the first byte is sent, two thirds of them idle and held open; rounds in which one client stops reading in the middle of a 3 MiB reply (its handler sits in a blocked write) while the others, started once that handler has been entered, must be served as usual. A connection left without bytes and without EOF for 40 s while the barrier probe made after the round is answered is a violation (stall). Every reply length in a 49-byte window below each of 4096, 8192, 32768, 65536, 131072 (thorough: 512 .. 2 MiB, 15 centres), plain and as continues+final pair, each followed by further calls on the same connection.",
 		Assumptions: []string{"connections that the service ends while pipelined calls are unread are run on unix sockets only (TCP may discard already sent replies on reset)", "handler events are attributed by the peer address the service reports (clients bind unique local addresses)"},
 		Run:         runC01, Replay: replayC01, CrashIsViolation: true, MinEvals: 100,
 		QuickTimeout: 10 * time.Minute, ThoroughTimeout: 40 * time.Minute,
